@@ -384,6 +384,44 @@ func c05CheckCorpus(e corpusEntry, st *stats.Run) error {
 		if h := sha256.Sum256(got); hex.EncodeToString(h[:]) != e.PlainSHA {
 			return pbt.Failf("C05/corpus-file-wrong-plaintext", "frozen corpus file %s decrypts to different bytes for %s", e.File, r)
 		}
+		// and through the age command, which has its own way in (armor sniffing, key-file parsing, lazy identities)
+		if bin := os.Getenv("VERIF_BIN"); bin != "" {
+			cdir, err := os.MkdirTemp(".", "c05cli-")
+			if err != nil {
+				return pbt.Failf("C05/harness", "%v", err)
+			}
+			cdir, _ = filepath.Abs(cdir)
+			os.WriteFile(filepath.Join(cdir, "in.age"), b, 0o644)
+			var code int
+			var out []byte
+			var stderr string
+			if r.Kind == "scrypt" {
+				if len(b) > 200000 {
+					os.RemoveAll(cdir)
+					continue
+				}
+				res, tty := c15RunPty(cdir, []string{r.Pass}, filepath.Join(bin, "age"), "-d", "-o", "out.dat", "in.age")
+				code, stderr = res.code, res.stderr+tty
+				if res.killed || res.code == -3 {
+					code = -2
+				}
+				out, _ = os.ReadFile(filepath.Join(cdir, "out.dat"))
+			} else {
+				os.WriteFile(filepath.Join(cdir, "key.txt"), c01KeyFile(p, r), 0o600)
+				var so string
+				code, so, stderr = runCLI(cdir, []string{"PATH=/nonexistent", "HOME=" + cdir}, nil, filepath.Join(bin, "age"), "-d", "-i", "key.txt", "in.age")
+				out = []byte(so)
+			}
+			os.RemoveAll(cdir)
+			if code == -2 {
+				st.Label("corpus:cli-inconclusive")
+				continue
+			}
+			if h := sha256.Sum256(out); code != 0 || hex.EncodeToString(h[:]) != e.PlainSHA {
+				return pbt.Failf("C05/corpus-file-rejected", "frozen corpus file %s: age -d for %s gives exit %d and %d bytes (%s)", e.File, r, code, len(out), trunc([]byte(stderr)))
+			}
+			st.Label("corpus:cli-decrypted")
+		}
 	}
 	return nil
 }
